@@ -209,6 +209,7 @@ class AsyncPettingZooVecEnv(PettingZooVecEnv):
             raise mp.TimeoutError(
                 f"The call to `reset_wait` has timed out after {timeout} second(s)."
             )
+        self._state = AsyncState.DEFAULT
 
         info_data, successes = zip(*[pipe.recv() for pipe in self.parent_pipes])
         self._raise_if_errors(successes)
@@ -274,6 +275,7 @@ class AsyncPettingZooVecEnv(PettingZooVecEnv):
             raise mp.TimeoutError(
                 f"The call to `step_wait` has timed out after {timeout} second(s)."
             )
+        self._state = AsyncState.DEFAULT
 
         rewards, terminations, truncations, infos = (
             defaultdict(list) for _ in range(4)
@@ -370,6 +372,7 @@ class AsyncPettingZooVecEnv(PettingZooVecEnv):
             raise mp.TimeoutError(
                 f"The call to `call_wait` has timed out after {timeout} second(s)."
             )
+        self._state = AsyncState.DEFAULT
 
         results, successes = zip(*[pipe.recv() for pipe in self.parent_pipes])
         self._raise_if_errors(successes)
@@ -439,6 +442,9 @@ class AsyncPettingZooVecEnv(PettingZooVecEnv):
                 function(timeout)
         except mp.TimeoutError:
             terminate = True
+        except Exception:
+            # a worker raised or died while the call was pending: never let close() fail
+            terminate = True
 
         if terminate:
             for process in self.processes:
@@ -447,11 +453,17 @@ class AsyncPettingZooVecEnv(PettingZooVecEnv):
         else:
             for pipe in self.parent_pipes:
                 if (pipe is not None) and (not pipe.closed):
-                    pipe.send(("close", None))
+                    try:
+                        pipe.send(("close", None))
+                    except OSError:
+                        pipe.close()
 
             for pipe in self.parent_pipes:
                 if (pipe is not None) and (not pipe.closed):
-                    pipe.recv()
+                    try:
+                        pipe.recv()
+                    except (EOFError, OSError):
+                        pass
 
         for pipe in self.parent_pipes:
             if pipe is not None:
